@@ -253,6 +253,7 @@ def register(ix):
     register_conversion(ix)
     register_init(ix)
     register_zip_init(ix)
+    register_init_findings(ix)
 
 
 def register_run_schedule(ix, whole):
@@ -322,7 +323,8 @@ def register_run_schedule(ix, whole):
                                            "_nblk == 1 or " + NOSRC.format(n="len(%s)" % TY), DA, I1] + TURN,
                         init_ghost={"_blk": "elstates()", "_a1": "frozen(%s)" % A, "_t1": "frozen(%s)" % TY, "_ind1": "-1"},
                         body_ghost={"_blk": "elstates()", "_a1": "frozen(%s)" % A, "_t1": "frozen(%s)" % TY, "_ind1": "ind"},
-                        ghost={"_a1": "Lst[Obj]", "_t1": "Lst[Key]", "_ind1": "Int"},
+                        # (`buf` is a list of flow values whenever the head of the branch loop is reached again)
+                        ghost={"_a1": "Lst[Obj]", "_t1": "Lst[Key]", "_ind1": "Int", "buf": "Lst[V]"},
                         decreases="n_of_active_seqs - ind"),
             2: yield_loop(2), 3: fill_fc, 4: yield_loop(4), 5: fill_fr, 6: yield_loop(6), 7: yield_loop(7),
             8: LoopSpec(invariant=[
@@ -943,6 +945,7 @@ def register_init(ix):
     ix.add(Contract(SP, "Split.__init__", props=["C03", "C05"], cases=[
         init_case(0, "Int"), init_case(1, "Int"), init_case(1, "None"), init_case(1, "Real"), init_case(2, "Int"),
         tuple_case("Int"), tuple_case("None"),
+        # (the finding below is registered apart, see register_init_findings)
         Contract(SP, "Split.__init__", name="Split.__init__[seqs is not a list]",
                  params={"self": "Self[Split0]", "seqs": "Tuple[Obj]", "bufsize": "Int", "copy_buf": "Bool"},
                  raises={"LenaTypeError": "True"})]))
@@ -994,3 +997,19 @@ def register_zip_init(ix):
                  params={"self": "Self[Zip0]", "sequences": "PyList[0,Obj]", "name": "Str", "fields": "PyList[0,Obj]"},
                  # `at least one sequence must be given`
                  raises={"LenaTypeError": "True"})]))
+
+
+def register_init_findings(ix):
+    """Split.__init__, docstring: `bufsize must be a natural number or None ...  In case of wrong initialization arguments,
+    LenaTypeError or LenaValueError is raised`.  For a bufsize that is a non-numeric string the builtin ValueError of
+    int(bufsize) escapes instead (also: TypeError for a list, ValueError for nan, OverflowError for inf).  A finding on the
+    unchanged tree, not part of any property's check (props=[]):
+        python3-vt tools/dbg.py lena/core/split.py "Split.__init__#finding-bufsize"
+    replay: PYTHONPATH=/repo /venv/bin/python -c "import lena.core as c; c.Split([], bufsize='abc')"   -> ValueError"""
+    ix.add(Contract(
+        SP, "Split.__init__", qualkey="Split.__init__#finding-bufsize", name="Split.__init__[no branches, bufsize a string]",
+        props=[],
+        params={"self": "Self[Split0]", "seqs": "PyList[0,Obj]", "bufsize": "Str", "copy_buf": "Bool"},
+        # a string is no natural number: one of the two documented exceptions, nothing else
+        raises={"LenaValueError": "?", "LenaTypeError": "?"}, ensures=["False"],
+        modifies=["self._seq_types", "self._n_seq_types", "self.run", "self._copy_buf", "self._bufsize", "self._name", "self._seqs"]))
